@@ -51,7 +51,7 @@ func (x *Exec) callValue(fn Value, args []Value, fr *frame) Value {
 }
 
 func (x *Exec) callFn(fn *ssa.Function, args []Value, env []Value, fr *frame) Value {
-	name := fn.String()
+	name := x.eng.funcInfo(fn).name
 	if fn.Pkg != nil && x.eng.harnessPkgs[fn.Pkg.Pkg.Path()] && fn.Signature.Recv() == nil {
 		if h, ok := intrinsics[fn.Name()]; ok {
 			return h(x, fr, fn, args)
@@ -61,14 +61,24 @@ func (x *Exec) callFn(fn *ssa.Function, args []Value, env []Value, fr *frame) Va
 		return h(x, fr, fn, args)
 	}
 	// prelude-provided model: function m_<pkg>_<Name> in the harness package
-	if fn.Pkg != nil && !x.eng.interpreted(fn.Pkg.Pkg.Path()) {
-		if pm := x.eng.preludeModel(fn); pm != nil {
-			return x.callFunction(pm, args, nil)
+	pkg := fn.Pkg
+	if pkg == nil && fn.Origin() != nil {
+		pkg = fn.Origin().Pkg
+	}
+	if pkg != nil && !x.eng.interpreted(pkg.Pkg.Path()) {
+		if fn.Pkg != nil {
+			if pm := x.eng.preludeModel(fn); pm != nil {
+				return x.callFunction(pm, args, nil)
+			}
 		}
 		if fn.Name() == "init" {
 			return nil
 		}
-		if !x.eng.allowedStd(fn) {
+		if !x.eng.allowedPkg(pkg.Pkg.Path()) {
+			if x.inStdInit > 0 {
+				// initialisers of unrelated package state (reflect types, sync pools)
+				return x.zeroResults(fn)
+			}
 			x.unsupported("external call " + name)
 		}
 	}
@@ -261,17 +271,13 @@ func (e *Engine) interpreted(path string) bool {
 }
 
 // allowedStd: standard-library functions that are executed from their own SSA.
-func (e *Engine) allowedStd(fn *ssa.Function) bool {
-	if fn.Pkg == nil {
-		// synthetic wrappers / instantiations
-		return true
-	}
-	switch fn.Pkg.Pkg.Path() {
+func (e *Engine) allowedPkg(path string) bool {
+	switch path {
 	case "errors", "sort", "unicode/utf8", "slices", "cmp", "math/bits", "unicode", "internal/stringslite", "internal/bytealg", "io":
 		return true
 	case "strconv":
 		return true
-	case "strings", "bytes":
+	case "strings", "bytes", "encoding/xml":
 		return true
 	}
 	return false
